@@ -235,6 +235,21 @@ pub fn minimise(prop: &str, oracle: &str, case: &Case, budget: usize) -> (Case, 
         }
         fails_same(prop, oracle, cand).is_some()
     };
+    // 0. the shortest failing prefix of the op list, by doubling (the replay
+    // source completes a run whose list ends early in the plainest way): a
+    // livelock of 20 000 recorded ops usually needs only its first few
+    if best.ops().len() > 64 {
+        let mut k = 0usize;
+        while k < best.ops().len() && used < budget {
+            let mut cand = best.clone();
+            cand.ops_mut().truncate(k);
+            if try_case(&cand, &mut used) {
+                best = cand;
+                break;
+            }
+            k = if k == 0 { 1 } else { k * 2 };
+        }
+    }
     let mut progress = true;
     while progress && used < budget {
         progress = false;
